@@ -338,8 +338,9 @@ fn render<'a, T: DiffableStr + ?Sized + 'a>(d: &'a TextDiff<'a, 'a, 'a, T>, radi
             ud3.header(a, b);
         }
         None => {
-            // a header cannot be unset: start from a fresh builder that only has the radius history
-            ud3 = d.unified_diff();
+            // a header cannot be unset: start from a fresh builder (made by the other constructor) that
+            // only has the radius history
+            ud3 = similar::udiff::UnifiedDiff::from_text_diff(d);
             ud3.context_radius(0).context_radius(radius);
         }
     }
